@@ -326,15 +326,24 @@ impl GraphDatabaseService {
     pub fn mutation_stream(&self) -> (mpsc::Sender<(String, Option<Parameters>)>, MutateReceiver) {
         let (send, mut recv) = mpsc::channel::<(String, Option<Parameters>)>(2);
         let (send_res, recv_res) = mpsc::channel::<Result<MutationQuery>>(2);
+        //the acknowledgements are relayed by a second task: its channel closes once the stream is closed
+        //and every mutation has been answered, and only then is the daily log requested
+        let (send_ack, mut recv_ack) = mpsc::channel::<Result<MutationQuery>>(2);
         let dbsender = self.sender.clone();
         tokio::spawn(async move {
             while let Some((mutate, param_opt)) = recv.recv().await {
                 let msg = DbMessage::MutateStream(
                     mutate,
                     param_opt.unwrap_or_default(),
-                    send_res.clone(),
+                    send_ack.clone(),
                 );
                 let _ = dbsender.send(msg).await;
+            }
+        });
+        let dbsender = self.sender.clone();
+        tokio::spawn(async move {
+            while let Some(ack) = recv_ack.recv().await {
+                let _ = send_res.send(ack).await;
             }
             let _ = dbsender.send(DbMessage::ComputeDailyLog()).await;
         });
